@@ -33,7 +33,7 @@ func genC19(r *Rng, k int, tier string) *RunSpec {
 		case x < 17:
 			return Pick(r, []string{"status:204", "status:203", "status:301", "status:404", "status:410", "status:500", "status:503", "status:199"})
 		case x < 19:
-			return "err"
+			return Pick(r, []string{"err", "err", "err:empty", "err:temporary"})
 		}
 		return "short"
 	}
@@ -152,7 +152,9 @@ func oracleC19(c *DriveCtx, res *Result) {
 					got[at.URL]++
 					if !fateOK(at.Fate, true) {
 						failed = append(failed, at.URL)
-						httpFailed = append(httpFailed, at.URL)
+						if at.Fate != "err:empty" { // an error without text cannot be named beyond its being there
+							httpFailed = append(httpFailed, at.URL)
+						}
 					}
 				}
 			}
